@@ -16,7 +16,7 @@ RULE = ("convolve: every (nx, nw) pair of the box (quick 1..120 + all pairs padd
         "distinct = distinct (nx,nw,mode) or (function,length,axis)")
 ASSUMPTIONS = ["numpy.convolve / numpy.fft are the textbook definitions", "float64 tolerance 1e-9 relative to the operands' magnitudes"]
 REQUIRED = {"contract:convolve_post": 1000, "fexpand_checked": 100, "fscale_checked": 100, "nsoptim_checked": 1000,
-            "lphp_checked": 50, "integer_sample_arrays": 20, "filter_history_calls": 200, "cosine_arrangements": 100, "corners_above_nyquist": 20, "dft_checked": 50, "cosine_checked": 20}
+            "lphp_checked": 50, "integer_sample_arrays": 20, "filter_history_calls": 200, "cosine_arrangements": 100, "corners_above_nyquist": 20, "corners_below_zero": 10, "dft_checked": 50, "cosine_checked": 20}
 CASE_TIMEOUT = 300.0
 
 _VIOL = []
@@ -259,6 +259,12 @@ def run_case(case):
                     b[1] = fny * float(rng.uniform(1.05, 1.6))
                     ikey += ":corner-above-nyquist"
                     res.count("corners_above_nyquist")
+                elif rng.random() < 0.12:
+                    # a transition band that starts below 0 Hz (partial gain at DC) on a signal with an offset: the same three laws
+                    b[0] = -fny * float(rng.uniform(0.02, 0.3))
+                    x = x + (x.dtype.type(3) if x.dtype.kind == "i" else float(rng.uniform(0.5, 3)))
+                    ikey += ":corner-below-zero"
+                    res.count("corners_below_zero")
                 if b[1] - b[0] < 1e-6 * fny:
                     b[1] = b[0] + 1e-3 * fny
                 b4 = np.sort(rng.uniform(0, fny, 4))
@@ -272,6 +278,8 @@ def run_case(case):
                     if rng.random() < 0.2:
                         hi2 = lo2.copy()
                     b4 = np.r_[lo2, hi2]
+                if ":corner-below-zero" in ikey:
+                    b4[0] = b[0]
                 if ":corner-above-nyquist" in ikey:
                     b4[3] = max(b4[3], fny * float(rng.uniform(1.05, 1.6)))
                 key = "filters:3d-non-last-axis" if (nd == 3 and a == 0) else ("filters:negative-axis" if (ax or 0) < 0 else "filters")
